@@ -1,7 +1,8 @@
 CFG = {
     "jobs": lambda tier: [J("prod", "c07"),
                           # work package c07rng: model-compared rows (coq/theories/RunC07.v)
-                          J("scaled", "c07-model", imports="Base Stream Inst Run RunWRows RunC07", shard=8)],
+                          J("scaled", "c07-model", imports="Base Stream Inst Run RunWRows RunC07", shard=8),
+                          J("prod", "c07-cli", script="tools/cli/c07_cli_job.py", needs_repo_bins=["mlar"], timeout=600)],
     "run_modules": ["RunWRows", "RunC07"],
     "rule": "production build: (1) groups of 4 archives built in one process from IDENTICAL inputs (same files, same recipient keys) plus 2 built in "
             "fresh processes: symmetric key, archive nonce and ephemeral public key pairwise distinct, key not in the header; (2) archives "
@@ -17,8 +18,9 @@ CFG = {
                     "cryptographic / OS facts outside Coq; they are observed (distinct secrets, absent markers), not proved",
                     "Diffie-Hellman commutativity of X25519 is the curve group law (hypothesis of the theorem, trusted mathematics)",
                     "that every plaintext byte is masked before reaching the inner writer is the canonical-form theorem of the encryption writer (C01_enc_writer_canonical)"],
-    "level_note": "partial: logic of key wrapping / candidate loop proved; freshness and secrecy are runtime/cryptographic and only observed by the correspondence job; "
-                  "trusted: Coq kernel + vm_compute, tools/src2v.py, the Rust harness",
+    "level_note": "partial: key wrapping / candidate loop, freshness relative to an explicit entropy resource, and 'every body byte is keystream-masked' are proved; "
+                  "unpredictability of the OS generator and cipher secrecy are cryptographic / runtime facts no executable model exhibits (explicit premises H1-H5); "
+                  "trusted: Coq kernel + vm_compute, tools/src2v.py + src2v3_fresh.py, the Rust harness, tools/cli/c07_cli_job.py",
 }
 CFG["rule"] += ("; c07-model (scaled build, model-compared): (a) 16 (quick) / 80 (thorough) ENCRYPT-only archives of 1-3 files written in 1-5 pieces of boundary sizes around "
                 "CIPHERBUF / CHUNK with 0-2 flush calls before every writer call: the bytes after the header == EncLayer.enc_format, under the concrete AES-256-GCM, of the Writer model's "
@@ -42,3 +44,8 @@ CFG["assumptions"] += ["c07rng hypotheses of C07_fresh_if_entropy_fresh (explici
                        "c07rng: C07_plain_windows_need_keystream_coincidence exhibits the event an occurrence needs; that it is improbable is AES-CTR's secrecy, not proved",
                        "c07rng not modelled: fork() of a process holding a live configuration, getrandom failure (from_os_rng panics), memory disclosure; the bit-level ChaCha20 / rand "
                        "sampling is bound to the code by job c07-model (b) only"]
+
+# round-4 seeds C07-m7 / C07-m8
+CFG["rule"] += ("; one key ring, two archives (8 / 40): a reader configuration loads the header of one encrypted archive, then of another: it must hold the key / nonce of the "
+                "one loaded last and read it; c07-cli (production mlar): `mlar create -l encrypt -p A -p B (-p C)` with the public keys given as PEM or DER files in every "
+                "combination and order the samples allow: every recipient's private key reads the file back, no other sample key does")
